@@ -578,3 +578,497 @@ Proof.
       * destruct Hss as (A & B & C & D). subst st1. cbn [with_out fl_start_ids fl_start_authors fl_start_kinds fl_start_tags] in *. repeat split; assumption.
       * rewrite Ho, <- app_assoc. replace (N.min l 4294967295) with l by lia. reflexivity.
 Qed.
+
+(* ---- the tag fields, then limit / since / until ---- *)
+Definition tagspec := (N * (list bytes * list bytes))%type.     (* letter, values, escaped values *)
+Definition tag_ok (t : tagspec) : Prop := is_letter (fst t) = true /\ Forall2 escd (fst (snd t)) (snd (snd t)).
+Definition tpart (t : tagspec) : bytes := tag_part (fst t) (snd (snd t)).
+Definition tvals_text (t : tagspec) : bytes := join [44] (map jstr (snd (snd t))).
+
+Fixpoint tag_starts (tags : list tagspec) (Rest : list bytes) (tail : bytes) : list bytes :=
+  match tags with
+  | [] => []
+  | t :: r => (fst t :: 34 :: 58 :: 91 :: tvals_text t ++ 93 :: members_close (map tpart r ++ Rest) tail) :: tag_starts r Rest tail
+  end.
+
+Lemma run_tags tags : forall l s u st fuel tail a r3,
+  Forall tag_ok tags -> NoDup (map fst tags) -> (forall L, In L (map fst tags) -> ~ In L (fl_letters st)) ->
+  l < 4294967296 -> s < 18446744073709551616 -> u < 18446744073709551616 -> fl_found st < 8 ->
+  fl_out st = a ++ le32 4294967295 ++ le64 0 ++ le64 18446744073709551615 ++ r3 -> len a = 12 ->
+  exists st', filter_members (length tags + (length (p_limit l) + (length (p_since s) + (length (p_until u) + S fuel)))) st
+                (members_close (map tpart tags ++ p_limit l ++ p_since s ++ p_until u) tail) = Ok (st', tail) /\
+    fl_start_ids st' = fl_start_ids st /\ fl_start_authors st' = fl_start_authors st /\ fl_start_kinds st' = fl_start_kinds st /\
+    fl_start_tags st' = fl_start_tags st ++ tag_starts tags (p_limit l ++ p_since s ++ p_until u) tail /\
+    fl_out st' = a ++ le32 l ++ le64 s ++ le64 u ++ r3.
+Proof.
+  induction tags as [|t r IH]; intros l s u st fuel tail a r3 Hok Hnd Hfr Hl Hs Hu Hc Eo La.
+  - cbn [map app length plus tag_starts]. destruct (run_limit l s u st fuel tail a r3 Hl Hs Hu Hc Eo La) as [st' [Hr [(A & B & C & D) Ho]]].
+    exists st'. rewrite app_nil_r. repeat split; assumption.
+  - apply Forall_cons_iff in Hok. destruct Hok as [[HL H2] Hokr]. cbn [map] in Hnd. apply NoDup_cons_iff in Hnd. destruct Hnd as [Hn0 Hndr].
+    set (Rest := p_limit l ++ p_since s ++ p_until u) in *.
+    set (K := members_close (map tpart r ++ Rest) tail).
+    set (st1 := mkFl (fl_out st) (fl_found st) (fst t :: fl_letters st) (fl_start_ids st) (fl_start_authors st) (fl_start_kinds st)
+                     (fl_start_tags st ++ [fst t :: 34 :: 58 :: 91 :: tvals_text t ++ 93 :: K])).
+    destruct (IH l s u st1 fuel tail a r3 Hokr Hndr) as [st' [Hr (A & B & C & D & Ho)]]; try assumption.
+    { intros L HLin [HeqL|Hin]; [subst L; apply Hn0; exact HLin|]. apply (Hfr L); [right; exact HLin|exact Hin]. }
+    exists st'. cbn [map app length plus]. split.
+    + rewrite (stage_step (tpart t) (35 :: fst t :: 34 :: 58 :: 91 :: tvals_text t ++ 93 :: K) (map tpart r ++ Rest) tail st st1 _).
+      * exact Hr.
+      * unfold tpart, tag_part, tvals_text. cbn [app]. rewrite <- ?app_assoc. cbn [app]. reflexivity.
+      * apply (fmem_tag st (fst t) (fst (snd t)) (snd (snd t)) K HL); [|exact H2].
+        destruct (existsb (fun x => x =? fst t) (fl_letters st)) eqn:Ex; [|reflexivity].
+        exfalso. apply existsb_exists in Ex. destruct Ex as [x [Hx Hxe]]. apply N.eqb_eq in Hxe. subst x.
+        apply (Hfr (fst t)); [left; reflexivity|exact Hx].
+    + subst st1. cbn [fl_start_ids fl_start_authors fl_start_kinds fl_start_tags] in *. repeat split; try assumption.
+      rewrite D. cbn [tag_starts]. rewrite <- app_assoc. reflexivity.
+Qed.
+
+(* ---- kinds, authors, ids on top ---- *)
+Definition numparts (l s u : N) : list bytes := p_limit l ++ p_since s ++ p_until u.
+Definition nnum (l s u : N) (fuel : nat) : nat := (length (p_limit l) + (length (p_since s) + (length (p_until u) + S fuel)))%nat.
+
+Lemma run_kinds ks tags l s u st fuel tail a r3 :
+  Forall (fun k => k < 65536) ks ->
+  Forall tag_ok tags -> NoDup (map fst tags) -> (forall L, In L (map fst tags) -> ~ In L (fl_letters st)) ->
+  l < 4294967296 -> s < 18446744073709551616 -> u < 18446744073709551616 -> fl_found st < 4 ->
+  fl_out st = a ++ le32 4294967295 ++ le64 0 ++ le64 18446744073709551615 ++ r3 -> len a = 12 ->
+  exists st', filter_members (length (p_kinds ks) + (length tags + nnum l s u fuel)) st
+                (members_close (p_kinds ks ++ map tpart tags ++ numparts l s u) tail) = Ok (st', tail) /\
+    fl_start_ids st' = fl_start_ids st /\ fl_start_authors st' = fl_start_authors st /\
+    fl_start_kinds st' = match ks with [] => fl_start_kinds st | _ => Some (declist ks ++ 93 :: members_close (map tpart tags ++ numparts l s u) tail) end /\
+    fl_start_tags st' = fl_start_tags st ++ tag_starts tags (numparts l s u) tail /\
+    fl_out st' = a ++ le32 l ++ le64 s ++ le64 u ++ r3.
+Proof.
+  intros Hk Hok Hnd Hfr Hl Hs Hu Hc Eo La. unfold nnum, numparts. destruct ks as [|k0 kr].
+  - cbn [p_kinds app length plus]. destruct (run_tags tags l s u st fuel tail a r3 Hok Hnd Hfr Hl Hs Hu ltac:(lia) Eo La) as [st' [Hr (A & B & C & D & Ho)]].
+    exists st'. repeat split; assumption.
+  - destruct (has_bit_small (fl_found st) FL_KINDS 2 eq_refl Hc) as [Hb Hsb].
+    set (K := members_close (map tpart tags ++ p_limit l ++ p_since s ++ p_until u) tail).
+    set (st1 := mkFl (fl_out st) (set_bit (fl_found st) FL_KINDS) (fl_letters st) (fl_start_ids st) (fl_start_authors st)
+                     (Some (declist (k0 :: kr) ++ 93 :: K)) (fl_start_tags st)).
+    destruct (run_tags tags l s u st1 fuel tail a r3 Hok Hnd Hfr Hl Hs Hu) as [st' [Hr (A & B & C & D & Ho)]]; try assumption.
+    { subst st1. cbn [fl_found]. rewrite Hsb. unfold FL_KINDS. lia. }
+    exists st'. cbn [p_kinds app length plus]. split.
+    + rewrite (stage_step _ (107 :: 105 :: 110 :: 100 :: 115 :: 34 :: 58 :: 91 :: declist (k0 :: kr) ++ 93 :: K) _ tail st st1 _).
+      * exact Hr.
+      * cbn [app]. rewrite <- ?app_assoc. cbn [app]. reflexivity.
+      * apply (fmem_kinds st (k0 :: kr) K Hk Hb).
+    + subst st1. cbn [fl_start_ids fl_start_authors fl_start_kinds fl_start_tags] in *. repeat split; assumption.
+Qed.
+
+Lemma run_authors au ks tags l s u st fuel tail a r3 :
+  Forall (fun x => wf_bytes x /\ len x = 32) au -> Forall (fun k => k < 65536) ks ->
+  Forall tag_ok tags -> NoDup (map fst tags) -> (forall L, In L (map fst tags) -> ~ In L (fl_letters st)) ->
+  l < 4294967296 -> s < 18446744073709551616 -> u < 18446744073709551616 -> fl_found st < 2 ->
+  fl_out st = a ++ le32 4294967295 ++ le64 0 ++ le64 18446744073709551615 ++ r3 -> len a = 12 ->
+  exists st', filter_members (length (p_authors au) + (length (p_kinds ks) + (length tags + nnum l s u fuel))) st
+                (members_close (p_authors au ++ p_kinds ks ++ map tpart tags ++ numparts l s u) tail) = Ok (st', tail) /\
+    fl_start_ids st' = fl_start_ids st /\
+    fl_start_authors st' = match au with [] => fl_start_authors st | _ => Some (hexlist au ++ 93 :: members_close (p_kinds ks ++ map tpart tags ++ numparts l s u) tail) end /\
+    fl_start_kinds st' = match ks with [] => fl_start_kinds st | _ => Some (declist ks ++ 93 :: members_close (map tpart tags ++ numparts l s u) tail) end /\
+    fl_start_tags st' = fl_start_tags st ++ tag_starts tags (numparts l s u) tail /\
+    fl_out st' = a ++ le32 l ++ le64 s ++ le64 u ++ r3.
+Proof.
+  intros Ha Hk Hok Hnd Hfr Hl Hs Hu Hc Eo La. destruct au as [|a0 ar].
+  - cbn [p_authors app length plus]. destruct (run_kinds ks tags l s u st fuel tail a r3 Hk Hok Hnd Hfr Hl Hs Hu ltac:(lia) Eo La) as [st' [Hr (A & B & C & D & Ho)]].
+    exists st'. repeat split; assumption.
+  - destruct (has_bit_small (fl_found st) FL_AUTHORS 1 eq_refl Hc) as [Hb Hsb].
+    set (K := members_close (p_kinds ks ++ map tpart tags ++ numparts l s u) tail).
+    set (st1 := mkFl (fl_out st) (set_bit (fl_found st) FL_AUTHORS) (fl_letters st) (fl_start_ids st)
+                     (Some (hexlist (a0 :: ar) ++ 93 :: K)) (fl_start_kinds st) (fl_start_tags st)).
+    destruct (run_kinds ks tags l s u st1 fuel tail a r3 Hk Hok Hnd Hfr Hl Hs Hu) as [st' [Hr (A & B & C & D & Ho)]]; try assumption.
+    { subst st1. cbn [fl_found]. rewrite Hsb. unfold FL_AUTHORS. lia. }
+    exists st'. cbn [p_authors app length plus]. split.
+    + rewrite (stage_step _ (97 :: 117 :: 116 :: 104 :: 111 :: 114 :: 115 :: 34 :: 58 :: 91 :: hexlist (a0 :: ar) ++ 93 :: K) _ tail st st1 _).
+      * exact Hr.
+      * cbn [app]. rewrite <- ?app_assoc. cbn [app]. reflexivity.
+      * apply (fmem_authors st (a0 :: ar) K Ha Hb).
+    + subst st1. cbn [fl_start_ids fl_start_authors fl_start_kinds fl_start_tags] in *. repeat split; assumption.
+Qed.
+
+Lemma run_ids ids au ks tags l s u st fuel tail a r3 :
+  Forall (fun x => wf_bytes x /\ len x = 32) ids ->
+  Forall (fun x => wf_bytes x /\ len x = 32) au -> Forall (fun k => k < 65536) ks ->
+  Forall tag_ok tags -> NoDup (map fst tags) -> (forall L, In L (map fst tags) -> ~ In L (fl_letters st)) ->
+  l < 4294967296 -> s < 18446744073709551616 -> u < 18446744073709551616 -> fl_found st < 1 ->
+  fl_out st = a ++ le32 4294967295 ++ le64 0 ++ le64 18446744073709551615 ++ r3 -> len a = 12 ->
+  exists st', filter_members (length (p_ids ids) + (length (p_authors au) + (length (p_kinds ks) + (length tags + nnum l s u fuel)))) st
+                (members_close (p_ids ids ++ p_authors au ++ p_kinds ks ++ map tpart tags ++ numparts l s u) tail) = Ok (st', tail) /\
+    fl_start_ids st' = match ids with [] => fl_start_ids st | _ => Some (hexlist ids ++ 93 :: members_close (p_authors au ++ p_kinds ks ++ map tpart tags ++ numparts l s u) tail) end /\
+    fl_start_authors st' = match au with [] => fl_start_authors st | _ => Some (hexlist au ++ 93 :: members_close (p_kinds ks ++ map tpart tags ++ numparts l s u) tail) end /\
+    fl_start_kinds st' = match ks with [] => fl_start_kinds st | _ => Some (declist ks ++ 93 :: members_close (map tpart tags ++ numparts l s u) tail) end /\
+    fl_start_tags st' = fl_start_tags st ++ tag_starts tags (numparts l s u) tail /\
+    fl_out st' = a ++ le32 l ++ le64 s ++ le64 u ++ r3.
+Proof.
+  intros Hi Ha Hk Hok Hnd Hfr Hl Hs Hu Hc Eo La. destruct ids as [|i0 ir].
+  - cbn [p_ids app length plus]. destruct (run_authors au ks tags l s u st fuel tail a r3 Ha Hk Hok Hnd Hfr Hl Hs Hu ltac:(lia) Eo La) as [st' [Hr (A & B & C & D & Ho)]].
+    exists st'. repeat split; assumption.
+  - destruct (has_bit_small (fl_found st) FL_IDS 0 eq_refl Hc) as [Hb Hsb].
+    set (K := members_close (p_authors au ++ p_kinds ks ++ map tpart tags ++ numparts l s u) tail).
+    set (st1 := mkFl (fl_out st) (set_bit (fl_found st) FL_IDS) (fl_letters st) (Some (hexlist (i0 :: ir) ++ 93 :: K))
+                     (fl_start_authors st) (fl_start_kinds st) (fl_start_tags st)).
+    destruct (run_authors au ks tags l s u st1 fuel tail a r3 Ha Hk Hok Hnd Hfr Hl Hs Hu) as [st' [Hr (A & B & C & D & Ho)]]; try assumption.
+    { subst st1. cbn [fl_found]. rewrite Hsb. unfold FL_IDS. lia. }
+    exists st'. cbn [p_ids app length plus]. split.
+    + rewrite (stage_step _ (105 :: 100 :: 115 :: 34 :: 58 :: 91 :: hexlist (i0 :: ir) ++ 93 :: K) _ tail st st1 _).
+      * exact Hr.
+      * cbn [app]. rewrite <- ?app_assoc. cbn [app]. reflexivity.
+      * apply (fmem_ids st (i0 :: ir) K Hi Hb).
+    + subst st1. cbn [fl_start_ids fl_start_authors fl_start_kinds fl_start_tags] in *. repeat split; assumption.
+Qed.
+
+(* ====================== Part D: the second pass and the whole filter ====================== *)
+Definition tag_of (t : tagspec) : list bytes := [fst t] :: fst (snd t).
+
+Lemma copy_tag_fields_spec tags : forall Rest tail P h4 od ot D F w n,
+  Forall tag_ok tags -> len h4 = 4 -> len od = 2 * w -> len ot = 2 * len tags -> w + len tags = n ->
+  sumN (map tag_size (map tag_of tags)) <= len F ->
+  copy_tag_fields (tag_starts tags Rest tail) w (P ++ h4 ++ od ++ ot ++ D ++ F) (len P) (len P + 4 + 2 * n + len D)
+  = Ok (P ++ h4 ++ (od ++ concat (map le16 (offsets (4 + 2 * n + len D) (map tag_of tags)))) ++ (D ++ concat (map enc_tag (map tag_of tags)))
+          ++ drop (sumN (map tag_size (map tag_of tags))) F,
+        len P + 4 + 2 * n + len D + sumN (map tag_size (map tag_of tags))).
+Proof.
+  induction tags as [|t r IH]; intros Rest tail P h4 od ot D F w n Hok Lh Lod Lot Hn Hcap.
+  - cbn [tag_starts copy_tag_fields map concat sumN offsets]. rewrite !app_nil_r, N.add_0_r.
+    assert (ot = []) by (destruct ot; [reflexivity|unfold len in Lot; cbn [length] in Lot; lia]). subst ot. reflexivity.
+  - revert Hn. apply Forall_cons_iff in Hok. destruct Hok as [[HL H2] Hokr]. intros Hn. rewrite len_cons in Lot, Hn.
+    cbn [map sumN] in Hcap. set (vs := fst (snd t)) in *. set (evs := snd (snd t)) in *. set (L := fst t) in *.
+    assert (Hts : tag_size (tag_of t) = 5 + sumN (map str_size vs)).
+    { unfold tag_size, tag_of. fold L vs. cbn [map sumN]. unfold str_size at 1. change (len [L]) with 1. lia. }
+    rewrite Hts in Hcap.
+    destruct (split_free ot 2 ltac:(lia)) as [Eot Lo2]. remember (take 2 ot) as o2 eqn:Eo2. remember (drop 2 ot) as ot' eqn:Eot'.
+    assert (Lot' : len ot' = 2 * len r) by (rewrite Eot', len_drop; lia). clear Eo2 Eot'.
+    destruct (split_free F 2 ltac:(lia)) as [EF Lc2]. remember (take 2 F) as c2 eqn:Ec2. remember (drop 2 F) as F1 eqn:EF1d. clear Ec2.
+    assert (LF1 : len F1 = len F - 2) by (rewrite EF1d; apply len_drop).
+    destruct (split_free F1 2 ltac:(lia)) as [EF1 Ln2]. remember (take 2 F1) as n2 eqn:En2. remember (drop 2 F1) as F2 eqn:EF2d. clear En2.
+    assert (LF2 : len F2 = len F - 4) by (rewrite EF2d, len_drop; lia).
+    destruct (split_free F2 1 ltac:(lia)) as [EF2 Ll1]. remember (take 1 F2) as l1 eqn:El1. remember (drop 1 F2) as F3 eqn:EF3d. clear El1.
+    assert (LF3 : len F3 = len F - 5) by (rewrite EF3d, len_drop; lia).
+    assert (HF3 : F3 = drop 5 F) by (rewrite EF3d, EF2d, EF1d, !drop_drop; reflexivity).
+    set (endp := len P + 4 + 2 * n + len D) in *.
+    cbn [tag_starts copy_tag_fields]. fold L. fold evs.
+    (* the offset slot *)
+    rewrite Eot.
+    replace (P ++ h4 ++ od ++ (o2 ++ ot') ++ D ++ F) with ((P ++ h4 ++ od) ++ o2 ++ (ot' ++ D ++ F)) by (rewrite <- !app_assoc; reflexivity).
+    rewrite (put_at (P ++ h4 ++ od) o2 (le16 (endp - len P)) _ (len P + 4 + 2 * w)) by (rewrite ?len_app, ?len_le16; lia). cbn [bind peek].
+    (* name length, letter *)
+    rewrite EF at 1. rewrite EF1 at 1. rewrite EF2 at 1.
+    set (pre := (P ++ h4 ++ od) ++ le16 (endp - len P) ++ ot' ++ D).
+    assert (Lpre : len pre = endp) by (subst pre endp; rewrite !len_app, len_le16; lia).
+    replace ((P ++ h4 ++ od) ++ le16 (endp - len P) ++ ot' ++ D ++ c2 ++ n2 ++ l1 ++ F3) with ((pre ++ c2) ++ n2 ++ (l1 ++ F3)) by (subst pre; rewrite <- !app_assoc; reflexivity).
+    rewrite (put_at (pre ++ c2) n2 (le16 1) _ (endp + 2)) by (rewrite ?len_app, ?len_le16; lia). cbn [bind].
+    replace (len ((pre ++ c2) ++ le16 1 ++ l1 ++ F3) <? endp + 2 + 3) with false by (symmetry; apply N.ltb_ge; rewrite !len_app, len_le16; lia).
+    replace ((pre ++ c2) ++ le16 1 ++ l1 ++ F3) with ((pre ++ c2 ++ le16 1) ++ l1 ++ F3) by (rewrite <- !app_assoc; reflexivity).
+    rewrite (put_raw_at (pre ++ c2 ++ le16 1) l1 [L] F3 (endp + 2 + 2)) by (rewrite ?len_app, ?len_le16; try (change (len [L]) with 1); lia). cbn [bind tl].
+    cbn [verify_char]. change (34 =? 34) with true. cbv iota. cbn [bind].
+    rewrite eat_colon_ws_lit by reflexivity. cbn [bind verify_char]. change (91 =? 91) with true. cbv iota. cbn [bind].
+    (* the values *)
+    replace ((pre ++ c2 ++ le16 1) ++ [L] ++ F3) with ((pre ++ c2 ++ le16 1 ++ [L]) ++ F3) by (rewrite <- !app_assoc; reflexivity).
+    unfold tvals_text. fold evs.
+    rewrite (copy_tag_values_spec vs evs _ (pre ++ c2 ++ le16 1 ++ [L]) F3 _ (endp + 2 + 3) 1 H2).
+    2:{ cbn [length]. rewrite app_length. apply F2_length in H2. rewrite H2.
+        assert (G : (length evs <= length (join [44%N] (map jstr evs)))%nat).
+        { clear. induction evs as [|e0 r0 IH0]; [cbn; lia|]. destruct r0 as [|e1 r1].
+          - cbn [map join length]. unfold jstr. rewrite !app_length. cbn [length]. lia.
+          - change (join [44%N] (map jstr (e0 :: e1 :: r1))) with (jstr e0 ++ [44%N] ++ join [44%N] (map jstr (e1 :: r1))).
+            rewrite !app_length. unfold jstr at 1. rewrite !app_length. cbn [length] in *. lia. }
+        lia. }
+    2:{ rewrite !len_app, len_le16. change (len [L]) with 1. lia. }
+    2:{ lia. }
+    cbn [bind].
+    (* the tag's string count *)
+    replace ((pre ++ c2 ++ le16 1 ++ [L]) ++ concat (map enc_str vs) ++ drop (sumN (map str_size vs)) F3)
+      with (pre ++ c2 ++ (le16 1 ++ [L] ++ concat (map enc_str vs) ++ drop (sumN (map str_size vs)) F3)) by (rewrite <- !app_assoc; reflexivity).
+    rewrite (put_at pre c2 (le16 (1 + len vs)) _ endp Lpre) by (rewrite len_le16; lia). cbn [bind].
+    (* reshape for the next field *)
+    assert (Henc : le16 (1 + len vs) ++ le16 1 ++ [L] ++ concat (map enc_str vs) = enc_tag (tag_of t)).
+    { unfold enc_tag, tag_of. fold L vs. rewrite len_cons. cbn [map concat]. unfold enc_str at 2. change (len [L]) with 1. rewrite <- !app_assoc. reflexivity. }
+    replace (pre ++ le16 (1 + len vs) ++ le16 1 ++ [L] ++ concat (map enc_str vs) ++ drop (sumN (map str_size vs)) F3)
+      with (P ++ h4 ++ (od ++ le16 (endp - len P)) ++ ot' ++ (D ++ enc_tag (tag_of t)) ++ drop (sumN (map str_size vs)) F3)
+      by (rewrite <- Henc; subst pre; rewrite <- !app_assoc; reflexivity).
+    replace (endp + 2 + 3 + sumN (map str_size vs)) with (len P + 4 + 2 * n + len (D ++ enc_tag (tag_of t))) by (rewrite len_app, len_enc_tag, Hts; subst endp; lia).
+    rewrite (IH Rest tail P h4 (od ++ le16 (endp - len P)) ot' (D ++ enc_tag (tag_of t)) (drop (sumN (map str_size vs)) F3) (w + 1) n Hokr Lh).
+    + cbn [map concat sumN offsets]. rewrite Hts, HF3, !drop_drop, !len_app, len_enc_tag, Hts.
+      replace (endp - len P) with (4 + 2 * n + len D) by (subst endp; lia).
+      rewrite <- !app_assoc.
+      replace (4 + 2 * n + (len D + (5 + sumN (map str_size vs)))) with (4 + 2 * n + len D + (5 + sumN (map str_size vs))) by lia.
+      replace (5 + (sumN (map str_size vs) + sumN (map tag_size (map tag_of r)))) with (5 + sumN (map str_size vs) + sumN (map tag_size (map tag_of r))) by lia.
+      replace (len P + 4 + 2 * n + (len D + (5 + sumN (map str_size vs))) + sumN (map tag_size (map tag_of r)))
+        with (endp + (5 + sumN (map str_size vs) + sumN (map tag_size (map tag_of r)))) by (subst endp; lia).
+      reflexivity.
+    + rewrite len_app, len_le16. lia.
+    + exact Lot'.
+    + lia.
+    + rewrite len_drop. lia.
+Qed.
+
+(* an optional hex array of the second pass, uniformly in "present or not" *)
+Lemma opt_hex_spec ids K fuel A c2 B F off endp : Forall (fun x => wf_bytes x /\ len x = 32) ids ->
+  (length ids < fuel)%nat -> len A = off -> c2 = le16 0 -> len (A ++ c2 ++ B) = endp -> 32 * len ids <= len F -> len ids < 65536 ->
+  (match (match ids with [] => None | _ => Some (hexlist ids ++ 93 :: K) end) with
+   | Some s => '(o, e, n) <- copy_hex32 fuel s ((A ++ c2 ++ B) ++ F) endp 0 ;; o' <- put o off (le16 n) ;; Ok (o', e, n)
+   | None => Ok ((A ++ c2 ++ B) ++ F, endp, 0) end)
+  = Ok ((A ++ le16 (len ids) ++ B ++ concat ids) ++ drop (32 * len ids) F, endp + 32 * len ids, len ids).
+Proof.
+  intros Hw Hf La Hc Le Hcap Hn. destruct ids as [|x r].
+  - subst c2. change (len (@nil bytes)) with 0. cbn [concat]. rewrite N.mul_0_r, N.add_0_r, app_nil_r. reflexivity.
+  - rewrite (copy_hex32_spec (x :: r) fuel (A ++ c2 ++ B) F K endp Hw Hf Le Hcap Hn). cbn [bind].
+    replace ((A ++ c2 ++ B) ++ concat (x :: r) ++ drop (32 * len (x :: r)) F) with (A ++ c2 ++ (B ++ concat (x :: r) ++ drop (32 * len (x :: r)) F))
+      by (rewrite <- !app_assoc; reflexivity).
+    rewrite (put_at A c2 (le16 (len (x :: r))) _ off La) by (subst c2; rewrite !len_le16; reflexivity). cbn [bind].
+    rewrite <- !app_assoc. reflexivity.
+Qed.
+
+Lemma opt_kinds_spec ks K fuel A c2 B F off endp : Forall (fun k => k < 65536) ks ->
+  (length ks < fuel)%nat -> len A = off -> c2 = le16 0 -> len (A ++ c2 ++ B) = endp -> 2 * len ks <= len F -> len ks < 65536 ->
+  (match (match ks with [] => None | _ => Some (declist ks ++ 93 :: K) end) with
+   | Some s => '(o, e, n) <- copy_kinds fuel s ((A ++ c2 ++ B) ++ F) endp 0 ;; o' <- put o off (le16 n) ;; Ok (o', e, n)
+   | None => Ok ((A ++ c2 ++ B) ++ F, endp, 0) end)
+  = Ok ((A ++ le16 (len ks) ++ B ++ concat (map le16 ks)) ++ drop (2 * len ks) F, endp + 2 * len ks, len ks).
+Proof.
+  intros Hw Hf La Hc Le Hcap Hn. destruct ks as [|x r].
+  - subst c2. change (len (@nil N)) with 0. cbn [map concat]. rewrite N.mul_0_r, N.add_0_r, app_nil_r. reflexivity.
+  - rewrite (copy_kinds_spec (x :: r) fuel (A ++ c2 ++ B) F K endp Hw Hf Le Hcap Hn). cbn [bind].
+    replace ((A ++ c2 ++ B) ++ concat (map le16 (x :: r)) ++ drop (2 * len (x :: r)) F) with (A ++ c2 ++ (B ++ concat (map le16 (x :: r)) ++ drop (2 * len (x :: r)) F))
+      by (rewrite <- !app_assoc; reflexivity).
+    rewrite (put_at A c2 (le16 (len (x :: r))) _ off La) by (subst c2; rewrite !len_le16; reflexivity). cbn [bind].
+    rewrite <- !app_assoc. reflexivity.
+Qed.
+
+(* the text *)
+Lemma join_members parts tail : join [44] parts ++ 125 :: tail = match parts with [] => 125 :: tail | p :: ps => p ++ members_close ps tail end.
+Proof.
+  destruct parts as [|p ps]; [reflexivity|]. revert p; induction ps as [|q ps IH]; intros p; [reflexivity|].
+  change (join [44] (p :: q :: ps)) with (p ++ [44] ++ join [44] (q :: ps)). rewrite <- !app_assoc. cbn [app members_close]. rewrite IH. reflexivity.
+Qed.
+
+Lemma tag_json_tpart t : tag_ok t -> filter_tag_json (tag_of t) = Ok (tpart t).
+Proof.
+  intros [_ H2]. unfold filter_tag_json, tag_of, tpart, tag_part.
+  assert (Hm : map_res json_string (fst (snd t)) = Ok (map jstr (snd (snd t)))).
+  { induction H2 as [|s e vs evs [Vs Es] _ IH]; [reflexivity|]. cbn [map_res map]. unfold json_string at 1. rewrite Es. cbn [bind]. rewrite IH. reflexivity. }
+  rewrite Hm. cbn [bind]. reflexivity.
+Qed.
+Lemma tags_json_tparts tags : Forall tag_ok tags -> map_res filter_tag_json (map tag_of tags) = Ok (map tpart tags).
+Proof.
+  induction 1 as [|t r Ht _ IH]; [reflexivity|]. cbn [map map_res]. rewrite (tag_json_tpart t Ht). cbn [bind]. rewrite IH. reflexivity.
+Qed.
+
+Definition all_parts (f : afilter) (tags : list tagspec) : list bytes :=
+  p_ids (f_ids f) ++ p_authors (f_authors f) ++ p_kinds (f_kinds f) ++ map tpart tags ++ numparts (f_limit f) (f_since f) (f_until f).
+
+Lemma filter_as_json_text f tags : f_tags f = map tag_of tags -> Forall tag_ok tags ->
+  filter_as_json f = Ok ([123] ++ join [44] (all_parts f tags) ++ [125]).
+Proof.
+  intros Et Hok. unfold filter_as_json. rewrite Et, (tags_json_tparts tags Hok). cbn [bind]. unfold all_parts, numparts, p_ids, p_authors, p_kinds, p_limit, p_since, p_until, hexlist, declist, hex_item.
+  destruct (f_ids f), (f_authors f), (f_kinds f); reflexivity.
+Qed.
+
+Definition wf_filter_json (f : afilter) (tags : list tagspec) : Prop :=
+  f_tags f = map tag_of tags /\ Forall tag_ok tags /\ NoDup (map fst tags) /\
+  Forall (fun x => wf_bytes x /\ len x = 32) (f_ids f) /\ Forall (fun x => wf_bytes x /\ len x = 32) (f_authors f) /\
+  Forall (fun k => k < 65536) (f_kinds f) /\
+  f_limit f < 4294967296 /\ f_since f < 18446744073709551616 /\ f_until f < 18446744073709551616 /\
+  len (f_ids f) < 65536 /\ len (f_authors f) < 65536 /\ len (f_kinds f) < 65536 /\
+  fits_tags (f_tags f) /\ filter_size f < 4294967296.
+
+Lemma join_length_ge (parts : list bytes) : Forall (fun p => p <> []) parts -> (length parts <= length (join [44%N] parts))%nat.
+Proof.
+  induction 1 as [|p r Hp _ IH]; [cbn; lia|]. destruct r as [|q r'].
+  - cbn [join length]. destruct p; [congruence|cbn [length]; lia].
+  - change (join [44%N] (p :: q :: r')) with (p ++ [44%N] ++ join [44%N] (q :: r')). rewrite !app_length. cbn [length] in *. lia.
+Qed.
+
+Lemma all_parts_nonempty f tags : Forall (fun p => p <> []) (all_parts f tags).
+Proof.
+  unfold all_parts, numparts, p_ids, p_authors, p_kinds, p_limit, p_since, p_until.
+  repeat (apply Forall_app; split).
+  - destruct (f_ids f); repeat constructor; discriminate.
+  - destruct (f_authors f); repeat constructor; discriminate.
+  - destruct (f_kinds f); repeat constructor; discriminate.
+  - apply Forall_forall. intros p Hp. apply in_map_iff in Hp. destruct Hp as [t [<- _]]. unfold tpart, tag_part. discriminate.
+  - destruct (f_limit f =? 4294967295); repeat constructor; discriminate.
+  - destruct (f_since f =? 0); repeat constructor; discriminate.
+  - destruct (f_until f =? 18446744073709551615); repeat constructor; discriminate.
+Qed.
+
+Lemma tags_size_of tags : tags_size (map tag_of tags) = 4 + 2 * len tags + sumN (map tag_size (map tag_of tags)).
+Proof. unfold tags_size, tags_hdr. rewrite len_map. reflexivity. Qed.
+
+Lemma tag_starts_len tags Rest tail : len (tag_starts tags Rest tail) = len tags.
+Proof. induction tags as [|t r IH]; [reflexivity|]. cbn [tag_starts]. rewrite !len_cons, IH. reflexivity. Qed.
+
+Lemma join_part_le (parts : list bytes) p : In p parts -> (length p <= length (join [44%N] parts))%nat.
+Proof.
+  induction parts as [|q r IH]; intros Hin; [destruct Hin|]. destruct r as [|q2 r2].
+  - destruct Hin as [->|[]]. cbn [join]. lia.
+  - change (join [44%N] (q :: q2 :: r2)) with (q ++ [44%N] ++ join [44%N] (q2 :: r2)). rewrite !app_length.
+    destruct Hin as [->|Hin]; [lia|]. specialize (IH Hin). lia.
+Qed.
+Lemma hexlist_length ids : (length ids <= length (hexlist ids))%nat.
+Proof.
+  unfold hexlist. rewrite <- (map_length hex_item ids). apply join_length_ge. apply Forall_forall. intros p Hp.
+  apply in_map_iff in Hp. destruct Hp as [x [<- _]]. unfold hex_item. discriminate.
+Qed.
+Lemma declist_length ks : Forall (fun k => k < 65536) ks -> (length ks <= length (declist ks))%nat.
+Proof.
+  intros Hk. unfold declist. rewrite <- (map_length dec ks). apply join_length_ge. apply Forall_forall. intros p Hp.
+  apply in_map_iff in Hp. destruct Hp as [x [<- Hx]]. rewrite Forall_forall in Hk. apply dec_nonempty.
+  assert (65536 < 10 ^ 25) by (vm_compute; reflexivity). specialize (Hk x Hx). lia.
+Qed.
+
+Lemma p_ids_bound ids parts : incl (p_ids ids) parts -> (length ids <= length (join [44%N] parts))%nat.
+Proof.
+  intros Hi. destruct ids as [|i0 ir] eqn:Ei; [cbn; lia|]. rewrite <- Ei in *.
+  assert (Hin : In ([34;105;100;115;34;58;91] ++ hexlist ids ++ [93]) parts) by (apply Hi; rewrite Ei; left; reflexivity).
+  apply join_part_le in Hin. rewrite !app_length in Hin. pose proof (hexlist_length ids). lia.
+Qed.
+Lemma p_authors_bound ids parts : incl (p_authors ids) parts -> (length ids <= length (join [44%N] parts))%nat.
+Proof.
+  intros Hi. destruct ids as [|i0 ir] eqn:Ei; [cbn; lia|]. rewrite <- Ei in *.
+  assert (Hin : In ([34;97;117;116;104;111;114;115;34;58;91] ++ hexlist ids ++ [93]) parts) by (apply Hi; rewrite Ei; left; reflexivity).
+  apply join_part_le in Hin. rewrite !app_length in Hin. pose proof (hexlist_length ids). lia.
+Qed.
+Lemma p_kinds_bound ks parts : Forall (fun k => k < 65536) ks -> incl (p_kinds ks) parts -> (length ks <= length (join [44%N] parts))%nat.
+Proof.
+  intros Wk Hi. pose proof (declist_length ks Wk) as Hd. destruct ks as [|i0 ir] eqn:Ei; [cbn; lia|]. rewrite <- Ei in *.
+  assert (Hin : In ([34;107;105;110;100;115;34;58;91] ++ declist ks ++ [93]) parts) by (apply Hi; rewrite Ei; left; reflexivity).
+  apply join_part_le in Hin. rewrite !app_length in Hin. lia.
+Qed.
+
+Theorem filter_json_roundtrip f tags txt out : wf_filter_json f tags -> filter_size f <= len out ->
+  filter_as_json f = Ok txt ->
+  filter_from_json txt out = Ok (len txt, enc_filter f, enc_filter f ++ drop (filter_size f) out).
+Proof.
+  intros (Et & Hok & Hnd & Wi & Wa & Wk & Hl & Hs & Hu & Ni & Na & Nk & Hfit & Hsz) Hcap Hj.
+  rewrite (filter_as_json_text f tags Et Hok) in Hj. injection Hj as Etxt.
+  set (parts := all_parts f tags) in *.
+  set (ids := f_ids f) in *. set (au := f_authors f) in *. set (ks := f_kinds f) in *.
+  set (l := f_limit f) in *. set (s := f_since f) in *. set (u := f_until f) in *.
+  assert (Hfs : filter_size f = 32 + 32 * len ids + 32 * len au + 2 * len ks + tags_size (map tag_of tags)).
+  { unfold filter_size. fold ids au ks. rewrite Et. reflexivity. }
+  rewrite Hfs in Hcap, Hsz. rewrite Et in Hfit. unfold fits_tags in Hfit. rewrite tags_size_of in Hcap, Hsz, Hfit.
+  set (S := sumN (map tag_size (map tag_of tags))) in *.
+  (* the text *)
+  assert (Ebody : txt = 123 :: (join [44] parts ++ [125])) by (rewrite <- Etxt; reflexivity).
+  assert (Ltxt : (2 <= length txt)%nat) by (rewrite Ebody; cbn [length]; rewrite app_length; cbn [length]; lia).
+  assert (Hparts : (length parts <= length txt)%nat).
+  { rewrite Ebody. cbn [length]. rewrite app_length. pose proof (join_length_ge parts (all_parts_nonempty f tags)). lia. }
+  (* the buffer *)
+  destruct (split_free out 32 ltac:(lia)) as [Eout L32]. remember (take 32 out) as o32 eqn:Eo32. remember (drop 32 out) as R eqn:ER. clear Eo32.
+  assert (LR : len R = len out - 32) by (rewrite ER; apply len_drop).
+  unfold filter_from_json, parse_json_filter.
+  replace (len txt <? 2) with false by (symmetry; apply N.ltb_ge; unfold len; lia).
+  rewrite Eout at 1. change (o32 ++ R) with ([] ++ o32 ++ R).
+  rewrite (put_at [] o32 filter_header R 0 eq_refl) by (rewrite L32; reflexivity). cbn [bind app].
+  rewrite Ebody at 1. rewrite (eat_ws_nonws 123) by reflexivity. cbn [verify_char]. change (123 =? 123) with true. cbv iota. cbn [bind].
+  (* first pass *)
+  change filter_header with (([0;0;0;0] ++ [0;0] ++ [0;0] ++ [0;0] ++ [0;0]) ++ le32 4294967295 ++ le64 0 ++ le64 18446744073709551615).
+  set (a12 := [0;0;0;0] ++ [0;0] ++ [0;0] ++ [0;0] ++ [0;0]).
+  set (st0 := mkFl ((a12 ++ le32 4294967295 ++ le64 0 ++ le64 18446744073709551615) ++ R) 0 [] None None None []).
+  assert (Hm : filter_members (Datatypes.S (length txt)) st0 (join [44] parts ++ [125]) = filter_members (Datatypes.S (length txt)) st0 (members_close parts [])).
+  { rewrite join_members. destruct parts as [|p ps]; [reflexivity|]. cbn [members_close]. rewrite fm_comma. reflexivity. }
+  rewrite Hm. clear Hm.
+  assert (Hlen : length parts = (length (p_ids ids) + (length (p_authors au) + (length (p_kinds ks) + (length tags + (length (p_limit l) + (length (p_since s) + length (p_until u)))))))%nat).
+  { subst parts. unfold all_parts, numparts. fold ids au ks l s u. rewrite !app_length, map_length. lia. }
+  set (fuel := (length txt - length parts)%nat).
+  (* the arrays are shorter than the text *)
+  assert (Hjoin : (length (join [44%N] parts) <= length txt)%nat) by (rewrite Ebody; cbn [length]; rewrite app_length; lia).
+  assert (Hfi : (length ids < Datatypes.S (length txt))%nat).
+  { assert (Hb := p_ids_bound ids parts). enough (length ids <= length (join [44%N] parts))%nat by lia. apply Hb.
+    subst parts. unfold all_parts. fold ids. apply incl_appl. apply incl_refl. }
+  assert (Hfa : (length au < Datatypes.S (length txt))%nat).
+  { assert (Hb := p_authors_bound au parts). enough (length au <= length (join [44%N] parts))%nat by lia. apply Hb.
+    subst parts. unfold all_parts. fold au. apply incl_appr. apply incl_appl. apply incl_refl. }
+  assert (Hfk : (length ks < Datatypes.S (length txt))%nat).
+  { assert (Hb := p_kinds_bound ks parts Wk). enough (length ks <= length (join [44%N] parts))%nat by lia. apply Hb.
+    subst parts. unfold all_parts. fold ks. apply incl_appr. apply incl_appr. apply incl_appl. apply incl_refl. }
+  assert (Hfuel : Datatypes.S (length txt) = (length (p_ids ids) + (length (p_authors au) + (length (p_kinds ks) + (length tags + nnum l s u fuel))))%nat)
+    by (unfold nnum; subst fuel; lia).
+  rewrite Hfuel in Hfi, Hfa, Hfk. rewrite Hfuel.
+  destruct (run_ids ids au ks tags l s u st0 fuel [] a12 R Wi Wa Wk Hok Hnd) as [st' [Hrun (Si & Sa & Sk & St & So)]];
+    try assumption; try (intros L0 _ []); try (cbn [fl_found st0]; lia); try reflexivity.
+  subst parts. unfold all_parts. fold ids au ks l s u. rewrite Hrun. cbn [bind]. clear Hrun.
+  rewrite Si, Sa, Sk, St, So. subst st0. cbn [fl_start_ids fl_start_authors fl_start_kinds fl_start_tags app].
+  (* second pass: ids *)
+  replace (a12 ++ le32 l ++ le64 s ++ le64 u ++ R)
+    with (([0;0;0;0] ++ [0;0] ++ ([0;0] ++ [0;0] ++ [0;0] ++ le32 l ++ le64 s ++ le64 u)) ++ R) by (subst a12; rewrite <- !app_assoc; reflexivity).
+  rewrite (opt_hex_spec ids _ _ [0;0;0;0] [0;0] _ R 4 32 Wi Hfi) by (try reflexivity; try lia; rewrite ?len_app, ?len_le32, ?len_le64; reflexivity).
+  cbn [bind].
+  (* authors *)
+  replace (([0;0;0;0] ++ le16 (len ids) ++ ([0;0] ++ [0;0] ++ [0;0] ++ le32 l ++ le64 s ++ le64 u) ++ concat ids) ++ drop (32 * len ids) R)
+    with ((([0;0;0;0] ++ le16 (len ids)) ++ [0;0] ++ ([0;0] ++ [0;0] ++ le32 l ++ le64 s ++ le64 u ++ concat ids)) ++ drop (32 * len ids) R)
+    by (rewrite <- !app_assoc; reflexivity).
+  assert (Lcid : len (concat ids) = 32 * len ids).
+  { apply len_concat_fixed. eapply Forall_impl; [|exact Wi]. intros x [_ H]. exact H. }
+  assert (Lcau : len (concat au) = 32 * len au).
+  { apply len_concat_fixed. eapply Forall_impl; [|exact Wa]. intros x [_ H]. exact H. }
+  rewrite (opt_hex_spec au _ _ ([0;0;0;0] ++ le16 (len ids)) [0;0] _ (drop (32 * len ids) R) 6 (32 + 32 * len ids) Wa Hfa)
+    by (try reflexivity; try lia; rewrite ?len_app, ?len_le16, ?len_le32, ?len_le64, ?len_drop, ?Lcid; change (len [0;0;0;0]) with 4; change (len [0;0]) with 2; try reflexivity; lia).
+  cbn [bind].
+  (* kinds *)
+  replace ((([0;0;0;0] ++ le16 (len ids)) ++ le16 (len au) ++ ([0;0] ++ [0;0] ++ le32 l ++ le64 s ++ le64 u ++ concat ids) ++ concat au) ++ drop (32 * len au) (drop (32 * len ids) R))
+    with ((([0;0;0;0] ++ le16 (len ids) ++ le16 (len au)) ++ [0;0] ++ ([0;0] ++ le32 l ++ le64 s ++ le64 u ++ concat ids ++ concat au)) ++ drop (32 * len ids + 32 * len au) R)
+    by (rewrite <- !app_assoc, drop_drop; reflexivity).
+  rewrite (opt_kinds_spec ks _ _ ([0;0;0;0] ++ le16 (len ids) ++ le16 (len au)) [0;0] _ (drop (32 * len ids + 32 * len au) R) 8 (32 + 32 * len ids + 32 * len au) Wk Hfk)
+    by (try reflexivity; try lia; rewrite ?len_app, ?len_le16, ?len_le32, ?len_le64, ?len_drop, ?Lcid, ?Lcau; change (len [0;0;0;0]) with 4; change (len [0;0]) with 2; try reflexivity; lia).
+  cbn [bind].
+  (* tags *)
+  set (wts := 32 + 32 * len ids + 32 * len au + 2 * len ks).
+  assert (Hw : wts = 32 + 32 * len ids + 32 * len au + 2 * len ks) by reflexivity.
+  set (P' := le16 (len ids) ++ le16 (len au) ++ le16 (len ks) ++ [0;0] ++ le32 l ++ le64 s ++ le64 u ++ concat ids ++ concat au ++ concat (map le16 ks)).
+  set (F3 := drop (32 * len ids + 32 * len au + 2 * len ks) R).
+  replace ((([0;0;0;0] ++ le16 (len ids) ++ le16 (len au)) ++ le16 (len ks) ++ ([0;0] ++ le32 l ++ le64 s ++ le64 u ++ concat ids ++ concat au) ++ concat (map le16 ks)) ++ drop (2 * len ks) (drop (32 * len ids + 32 * len au) R))
+    with (([0;0;0;0] ++ P') ++ F3) by (subst P' F3; rewrite <- !app_assoc, drop_drop; reflexivity).
+  replace (32 + 32 * len ids + 32 * len au + 2 * len ks) with wts by reflexivity.
+  assert (LP : len ([0;0;0;0] ++ P') = wts).
+  { subst P' wts. rewrite !len_app, !len_le16, len_le32, !len_le64, Lcid, Lcau, len_concat_le16. change (len [0;0;0;0]) with 4. change (len [0;0]) with 2. lia. }
+  assert (LF3 : len F3 = len out - wts) by (subst F3 wts; rewrite len_drop, LR; lia).
+  rewrite tag_starts_len.
+  destruct (split_free F3 2 ltac:(lia)) as [EF3 Lt2]. remember (take 2 F3) as t2 eqn:Et2. remember (drop 2 F3) as F4 eqn:EF4d. clear Et2.
+  assert (LF4 : len F4 = len F3 - 2) by (rewrite EF4d; apply len_drop).
+  destruct (split_free F4 2 ltac:(lia)) as [EF4 Ln2]. remember (take 2 F4) as n2 eqn:En2. remember (drop 2 F4) as F5 eqn:EF5d. clear En2.
+  assert (LF5 : len F5 = len F3 - 4) by (rewrite EF5d, len_drop; lia).
+  destruct (split_free F5 (2 * len tags) ltac:(lia)) as [EF5 Lot]. remember (take (2 * len tags) F5) as ot eqn:Eot. remember (drop (2 * len tags) F5) as F6 eqn:EF6d. clear Eot.
+  assert (LF6 : len F6 = len F3 - 4 - 2 * len tags) by (rewrite EF6d, len_drop; lia).
+  rewrite EF3 at 1. rewrite EF4 at 1.
+  replace (([0;0;0;0] ++ P') ++ t2 ++ n2 ++ F5) with ((([0;0;0;0] ++ P') ++ t2) ++ n2 ++ F5) by (rewrite <- !app_assoc; reflexivity).
+  rewrite (put_at (([0;0;0;0] ++ P') ++ t2) n2 (le16 (len tags)) F5 (wts + 2)) by (first [rewrite len_app, LP, Lt2; reflexivity | rewrite len_le16; lia]). cbn [bind].
+  rewrite EF5 at 1.
+  replace ((([0;0;0;0] ++ P') ++ t2) ++ le16 (len tags) ++ ot ++ F6) with (([0;0;0;0] ++ P') ++ (t2 ++ le16 (len tags)) ++ [] ++ ot ++ [] ++ F6)
+    by (cbn [app]; rewrite <- !app_assoc; reflexivity).
+  rewrite <- LP at 1 2.
+  replace (len ([0;0;0;0] ++ P') + 4 + 2 * len tags) with (len ([0;0;0;0] ++ P') + 4 + 2 * len tags + len (@nil N)) by (change (len (@nil N)) with 0; lia).
+  rewrite (copy_tag_fields_spec tags _ [] ([0;0;0;0] ++ P') (t2 ++ le16 (len tags)) [] ot [] F6 0 (len tags) Hok)
+    by (rewrite ?len_app, ?len_le16; try reflexivity; lia).
+  rewrite LP. cbn [bind]. rewrite !app_nil_l. change (len (@nil N)) with 0. rewrite !N.add_0_r.
+  fold S.
+  replace (wts + 4 + 2 * len tags + S - wts) with (4 + 2 * len tags + S) by lia.
+  replace (65535 <? 4 + 2 * len tags + S) with false by (symmetry; apply N.ltb_ge; lia).
+  replace (([0;0;0;0] ++ P') ++ (t2 ++ le16 (len tags)) ++ concat (map le16 (offsets (4 + 2 * len tags) (map tag_of tags))) ++ concat (map enc_tag (map tag_of tags)) ++ drop S F6)
+    with (([0;0;0;0] ++ P') ++ t2 ++ (le16 (len tags) ++ concat (map le16 (offsets (4 + 2 * len tags) (map tag_of tags))) ++ concat (map enc_tag (map tag_of tags)) ++ drop S F6))
+    by (rewrite <- !app_assoc; reflexivity).
+  rewrite (put_at ([0;0;0;0] ++ P') t2 (le16 (4 + 2 * len tags + S)) _ wts LP) by (rewrite len_le16; lia). cbn [bind].
+  replace (4294967295 <? wts + 4 + 2 * len tags + S) with false by (symmetry; apply N.ltb_ge; subst wts; lia).
+  replace (([0;0;0;0] ++ P') ++ le16 (4 + 2 * len tags + S) ++ le16 (len tags) ++ concat (map le16 (offsets (4 + 2 * len tags) (map tag_of tags))) ++ concat (map enc_tag (map tag_of tags)) ++ drop S F6)
+    with ([] ++ [0;0;0;0] ++ (P' ++ le16 (4 + 2 * len tags + S) ++ le16 (len tags) ++ concat (map le16 (offsets (4 + 2 * len tags) (map tag_of tags))) ++ concat (map enc_tag (map tag_of tags)) ++ drop S F6))
+    by (cbn [app]; rewrite <- ?app_assoc; reflexivity).
+  rewrite (put_at [] [0;0;0;0] (le32 (wts + 4 + 2 * len tags + S)) _ 0 eq_refl) by (rewrite len_le32; reflexivity). cbn [bind app].
+  change (len (@nil N)) with 0. rewrite N.sub_0_r.
+  (* the buffer is the encoding followed by the rest *)
+  assert (Efs : wts + 4 + 2 * len tags + S = filter_size f) by (rewrite Hfs, tags_size_of; subst wts; fold S; lia).
+  assert (Eenc : le32 (wts + 4 + 2 * len tags + S) ++ P' ++ le16 (4 + 2 * len tags + S) ++ le16 (len tags) ++
+                 concat (map le16 (offsets (4 + 2 * len tags) (map tag_of tags))) ++ concat (map enc_tag (map tag_of tags)) ++ drop S F6
+                 = enc_filter f ++ drop (filter_size f) out).
+  { assert (Hd : drop S F6 = drop (filter_size f) out).
+    { rewrite EF6d, EF5d, EF4d. subst F3. rewrite ER, !drop_drop. f_equal. rewrite <- Efs. lia. }
+    rewrite Hd, Efs. unfold enc_filter. fold ids au ks l s u. rewrite Et. unfold enc_tags, tags_hdr. rewrite len_map, tags_size_of. fold S.
+    subst P'. rewrite <- !app_assoc. reflexivity. }
+  rewrite Eenc.
+  assert (Lenc : len (enc_filter f) = filter_size f).
+  { unfold enc_filter, filter_size. fold ids au ks l s u. rewrite !len_app, len_le32, !len_le16, len_le32, !len_le64, Lcid, Lcau, len_concat_le16, len_enc_tags. change (len [0;0]) with 2. lia. }
+  rewrite Efs.
+  replace (len (enc_filter f ++ drop (filter_size f) out) <? filter_size f) with false
+    by (symmetry; apply N.ltb_ge; rewrite len_app, Lenc; lia).
+  rewrite <- Lenc at 1. rewrite take_app_len. reflexivity.
+Qed.
